@@ -29,6 +29,20 @@ type docCase struct {
 	Doc   *string             `json:"doc,omitempty"`
 	DocQ  string              `json:"doc_quoted,omitempty"` // %q rendering, for invalid UTF-8
 	Query map[string][]string `json:"query,omitempty"`
+	// Nest describes a deep-nesting document compactly (open x n + mid + close x n),
+	// so that a multi-megabyte input is replayable without being stored
+	Nest *nestDoc `json:"nest,omitempty"`
+}
+
+type nestDoc struct {
+	Open  string `json:"open"`
+	Mid   string `json:"mid"`
+	Close string `json:"close"`
+	N     int    `json:"n"`
+}
+
+func (n *nestDoc) text() string {
+	return strings.Repeat(n.Open, n.N) + n.Mid + strings.Repeat(n.Close, n.N)
 }
 
 func (c docCase) schema() (*codecx.Schema, error) {
@@ -56,6 +70,10 @@ func laneDoc(raw json.RawMessage) ([]vf.Failure, error) {
 	var c docCase
 	if err := json.Unmarshal(raw, &c); err != nil {
 		return nil, err
+	}
+	if c.Doc == nil && c.Nest != nil {
+		s := c.Nest.text()
+		c.Doc = &s
 	}
 	if c.Doc == nil && c.DocQ != "" {
 		var s string
@@ -241,15 +259,32 @@ func TestDeep(t *testing.T) {
 			ds = append(append([]int{}, depths...), 50000, 200000)
 		}
 		for _, n := range ds {
-			doc := strings.Repeat(tp.open, n) + tp.mid + strings.Repeat(tp.close, n)
+			nd := &nestDoc{Open: tp.open, Mid: tp.mid, Close: tp.close, N: n}
+			doc := nd.text()
 			c := mkCase(s, fixschema.Pkg+"."+tp.root, doc)
 			r.Eval(n > 1, vf.Hash(tp.root, tp.open, n), fmt.Sprintf("depth:%d", n))
-			r.Journal(docCase{Root: c.Root, DocQ: fmt.Sprintf("%q", "<"+tp.open+" x "+fmt.Sprint(n)+">")})
+			compact := docCase{Root: c.Root, Nest: nd}
+			r.Journal(compact)
 			start := time.Now()
-			ok := r.JudgeNoFatal(docCase{Root: c.Root, Doc: c.Doc}, check(s, c))
+			ok := r.JudgeNoFatal(compact, check(s, c))
 			if ok && n == 12000 && r.WantSample() {
 				r.Sample(map[string]any{"root": tp.root, "template": tp.open + tp.mid + tp.close, "depth": n, "bytes": len(doc), "ms": time.Since(start).Milliseconds()})
 			}
+		}
+	}
+	// unbounded recursion: a decoder that recurses once per level with no limit of
+	// its own dies of stack overflow (not recoverable) well before these depths;
+	// one that bounds its recursion rejects or accepts them in linear time. The
+	// worker's death is attributed through the journal.
+	for _, tp := range []tmpl{{"Rec", `{"next":`, `{}`, `}`}, {"Rec", `{"kids":[`, `{}`, `]}`}, {"All", `{"rString":[`, `"x"`, `]}`}} {
+		for _, n := range []int{1500000, 3000000} {
+			nd := &nestDoc{Open: tp.open, Mid: tp.mid, Close: tp.close, N: n}
+			doc := nd.text()
+			c := mkCase(s, fixschema.Pkg+"."+tp.root, doc)
+			r.Eval(true, vf.Hash(tp.root, tp.open, n), "depth:millions")
+			compact := docCase{Root: c.Root, Nest: nd}
+			r.Journal(compact)
+			r.JudgeNoFatal(compact, check(s, c))
 		}
 	}
 	// huge scalar tokens
